@@ -278,6 +278,8 @@ func (d *DStarLite) Step() bool {
 
 // MoveTo moves to n in the world graph.
 func (d *DStarLite) MoveTo(n graph.Node) {
+	// Account for the moves made by Step since the last update.
+	d.keyModifier += d.heuristic(d.last, d.s)
 	d.last = d.s
 	d.s = d.model.Node(n.ID()).(*dStarLiteNode)
 	d.keyModifier += d.heuristic(d.last, d.s)
